@@ -34,6 +34,24 @@ def gen_case(rnd, tier: str, i: Any) -> Dict[str, Any]:
         return {"num_kernels": rnd.choice([1, 2, 3, 10]), "duration_ratio": rnd.choice([0.1, 0.5, 0.8, 1.0]),
                 "include_memory_kernels": rnd.random() < 0.5, "use_gpu_annotation": rnd.random() < 0.6,
                 "allowlist": rnd.choice([None, None, ["fwd"], ["nccl:", "loss"], ["nomatch"]])}
+    if rnd.random() < 0.2:
+        # file order is free: an annotation span is the first entry of the event list, so that its category is the first symbol
+        # registered (symbol id 0) - seed C11-Q tested the category's id for truth
+        want = rnd.choice(["gpu_user_annotation", "user_annotation"])
+        for tr in c["files"].values():
+            evs = tr["traceEvents"]
+            k = next((j for j, e in enumerate(evs) if isinstance(e, dict) and e.get("cat") == want and "dur" in e), None)
+            if k is not None:
+                evs.insert(0, evs.pop(k))
+    if rnd.random() < 0.15:
+        # an exporter that writes the stream id as a numeric string ("stream": "7"): the loader documents that it converts them
+        # (normalize_gpu_stream_numbers); one file of the set, or all (seed C05-Q kept integers only)
+        trs = list(c["files"].values())
+        for tr in (trs if rnd.random() < 0.5 else trs[-1:]):
+            for e in tr["traceEvents"]:
+                a = e.get("args") if isinstance(e, dict) else None
+                if isinstance(a, dict) and isinstance(a.get("stream"), int) and not isinstance(a.get("stream"), bool):
+                    a["stream"] = str(a["stream"])
     c["params"] = prm()
     # further requests on the same TraceAnalysis object (other parameter values); each is judged on its own
     c["more_params"] = [prm() for _ in range(rnd.choice([0, 0, 1, 2]))]
